@@ -24,6 +24,25 @@ type PFCPSession struct {
 	PacketForwardingRules
 }
 
+// clone returns a copy of the session that shares no rule storage with s, so
+// that editing the copy (append, in-place update, removal) can never change s.
+func (s PFCPSession) clone() PFCPSession {
+	c := s
+	c.pdrs = make([]pdr, len(s.pdrs), max(len(s.pdrs), MaxItems))
+	copy(c.pdrs, s.pdrs)
+
+	for i := range c.pdrs {
+		c.pdrs[i].qerIDList = append([]uint32(nil), s.pdrs[i].qerIDList...)
+	}
+
+	c.fars = make([]far, len(s.fars), max(len(s.fars), MaxItems))
+	copy(c.fars, s.fars)
+	c.qers = make([]qer, len(s.qers), max(len(s.qers), MaxItems))
+	copy(c.qers, s.qers)
+
+	return c
+}
+
 func (p PacketForwardingRules) String() string {
 	return fmt.Sprintf("PDRs=%v, FARs=%v, QERs=%v", p.pdrs, p.fars, p.qers)
 }
